@@ -505,10 +505,17 @@ def vacuity_variant(text):
     pos = 0
     probes = []
     MARK = " assert(false); /*VACUITY-PROBE*/ "
+    # Verus requires `hide(f);` / `reveal(f);` header statements to come first in a body: the probe goes right after them
+    # (they only remove / add definitions, they cannot make a contradictory context consistent)
+    HDR = re.compile(r"(?:\s*(?:hide|reveal)\s*\(\s*[A-Za-z_][A-Za-z0-9_:]*\s*\)\s*;(?:[ \t]*//[^\n]*)?)+")
     for f in fns:
-        out.append(text[pos:f["body_open"] + 1])
+        ins = f["body_open"] + 1
+        mh = HDR.match(text, ins)
+        if mh: ins = mh.end()
+        out.append(text[pos:ins])
+        if mh: out.append("\n")      # the header may end in a `//` comment
         out.append(MARK)
-        pos = f["body_open"] + 1
+        pos = ins
     out.append(text[pos:])
     vt = "".join(out)
     # lines of probes
